@@ -5,7 +5,7 @@ Deciding method
     wgsl/internal/lower/lower.go: swizzle validation = WGSL's vector-access rule for every name and
     width; one delimiter more or less can never be balanced and matching fails at or after the edit
     (whatever the grammar, as long as delimiters come in pairs); @group/@binding pairing, array
-    element count, @workgroup_size, constant division: equal to the rule, or refuted by a witness.
+    element count, @workgroup_size, constant division: equal to the rule.
   * Tie R: switch tables and the Go text of every transliterated piece regenerated from /repo
     (Gen/DiagTables.v) and compared by coqc with the model / the reviewed text (Diag/DiagInst.v).
   * Tie C: the extracted models against naga on finite domains (all swizzle names up to a length
@@ -408,11 +408,10 @@ def leaf_correspondence(ctx, tools, exe):
             broken.append("%s model and naga disagree on `%s`: model %s, naga stage=%r %s" % (
                 kind, desc, "error" if model_err else "no error", r.get("stage"), (r.get("err") or "")[:100]))
         if spec_err and impl_accepts:
-            # the (refuted) model predicts exactly this: replay of the _refuted witness family on naga
             cls = {"array_size": "negative" if mj.get("v", 0) < 0 else "zero", "pairing": "non-literal-argument",
                    "const_div": "const-decl", "workgroup_size": "missing"}[kind]
-            leaf_violation("leaf:%s:%s" % (kind, cls), "%s: `%s` breaks the rule and is compiled (the transliterated model predicts it: %s)" % (
-                kind, desc, {"array_size": "Props/C11.v c11_array_size_refuted", "pairing": "Props/C11.v c11_pairing_refuted"}.get(kind, "model disagrees")), j["src"])
+            leaf_violation("leaf:%s:%s" % (kind, cls), "%s: `%s` breaks the rule and is compiled although the transliterated model (proved equal to the rule) predicts an error" % (
+                kind, desc), j["src"])
     stats["grids"] = cnt
     for key, (what, src, n) in sorted(found.items()):
         DUMP.append({"property": "C11", "status": "open", "match": key, "what": what})
